@@ -555,7 +555,7 @@ EV_MMAP_LOCK = {
 }
 for _p, _oid in (("C05", "M05-5-mmap-meta-lock-exclusive"), ("C10", "M10-8-mmap-meta-lock-exclusive"), ("C18", "M18-4-mmap-writer-lock-exclusive")):
     M(_p, _oid, dict(
-        root=r"^directory::mmap_directory::" + I + r"::acquire_lock$", depth=1, unroll=2, inline=[], auto_inline=False,
+        root=r"^directory::mmap_directory::" + I + r"::acquire_lock$", depth=2, unroll=2, inline=[],
         absent_ok_events=["shared"],
         events=EV_MMAP_LOCK,
         checks=[("never", "shared"), ("reach", "excl"), ("reach", "try_excl"),
@@ -671,7 +671,7 @@ M("C20", "M20-2-index-validate", dict(
   functions=["Index::validate_checksum"], bounds="unroll 2")
 
 M("C06", "M06-3-merge-pushes-in-address-order", dict(
-    root=r"^collector::sort_key_top_collector::merge_top_k$", depth=1, unroll=2, inline=[], auto_inline=False,
+    root=r"^collector::sort_key_top_collector::merge_top_k$", depth=2, unroll=2, inline=[],
     native=[("api_ok", "topk_tie_break_multi_segment")], absent_ok_events=["order"],
     events={"order": {"call": r"(slice::<impl \[.*\]>|std::vec::Vec<.*>)::sort(_unstable)?(_by|_by_key)?"},
             "push": {"call": r"TopNComputer::<.*>::push$"},
@@ -786,8 +786,7 @@ M("C02", "M02-6-memory-cut-only-between-groups", dict(
 M("C03", "M03-1-json-range-bound-transformations", dict(
     kind="bounds",
     parent=r"^query::range_query::range_query_fastfield::search_on_json_numerical_field$",
-    # column types, in source order of the match arms, per literal type
-    arms={"i64": ["i64", "u64", "f64"], "u64": ["u64", "i64", "f64"]}),
+    literals=["i64", "u64"]),
   title="range query with an integer literal on a numeric column of another integer type: for every literal and every column value, the value satisfies the transformed bound (order-preserving u64 space) iff it satisfies the written bound numerically - lower / upper, inclusive / exclusive",
   functions=["search_on_json_numerical_field::{closure#..} (bound transformers)"],
   bounds="all 64-bit literals x all 64-bit column values; i64 / u64 literals on i64 / u64 columns; f64 columns and f64 literals outside (f64 literals: K03-f64-bounds-*)",
@@ -800,8 +799,8 @@ M("C03", "M03-1-json-range-bound-transformations", dict(
 # =============================================================================================
 M("C17", "M17-1-segment-sort-key-is-order-preserving", dict(
     kind="sortkey", crate="columnar",
-    closure=r"^columnar::writer::" + I + r"::sort_order::\{closure#\d+\}$",
-    param=r"_2: value::NumericalValue", ret="std::option::Option<u64>", enum="value::NumericalValue",
+    # the value -> key body, wherever it lives in the writer module (closure of sort_order or a helper)
+    closure=r"^columnar::writer::", param_ty=r"value::NumericalValue", rets=("std::option::Option<u64>", "u64"), enum="value::NumericalValue",
     variants=[("I64", "i64"), ("U64", "u64")]),
   title="ColumnarWriter::sort_order: the u64 key a numerical sort field is compared by preserves the order of the values (i64 and u64 variants): a < b iff key(a) < key(b) - the permutation of a freshly written segment of a sorted index is computed from these keys",
   functions=["ColumnarWriter::sort_order::{closure} (value -> key)"],
